@@ -1,6 +1,11 @@
 """
-eng_layout — engine of properties C17 (allocation layout integrity) and C18 (builders), and of the
-builder clause of C11 (panic safety: "if an element constructor passed to a slice builder panics
+eng_layout — engine of properties C17 (allocation layout integrity) and C18 (builders), of the
+builder clause of C11, of C03's clause "no value is destructed and no allocation is released while
+a callback is running" judged on every builder scenario / constructor / fault sequence (`--prop
+C03`, monitor lines `C03: …`; model disagreements are left to C18), and of C04's clause "returned
+to the global allocator with exactly the layout it was requested with" over release histories
+(`--prop C04`, `pair …` cases: sweep, weak-shell release, arena drop in every phase, abandoned
+builder — zero-sized kinds included).  Builder clause of C11 (panic safety: "if an element constructor passed to a slice builder panics
 at any index … an abandoned builder destructs exactly the parts that were initialised").
 
 For C11 the harness runs (`--prop C11`, harness_layout/src/c11.rs) sequences of builder faults on
@@ -253,7 +258,7 @@ def _is_nontrivial(c):
     return not (a == "none" or a.startswith("no-") or a == "bad-query")
 
 
-def analyse(prop, tier, seed, config, cases, crashes, global_mon, model_ans, timings):
+def analyse(prop, tier, seed, config, cases, crashes, global_mon, model_ans, timings, ignore_diffs=False):
     problems = []
     groups = collections.OrderedDict()   # signature -> dict(kind, cases)
     n_monitor_cases = 0
@@ -279,6 +284,8 @@ def analyse(prop, tier, seed, config, cases, crashes, global_mon, model_ans, tim
             g["cases"].append((c, m))
         elif c.answer != m or not c.ended:
             n_disagree += 1
+            if ignore_diffs and c.ended:
+                continue
             sig = "diff|" + f + "|" + _sig(f"{c.answer} / {m}")
             if sig not in groups and sum(1 for s in groups if s.startswith("diff|" + f)) >= 2:
                 sig = "diff|" + f + "|other"
@@ -482,7 +489,7 @@ def coverage_guard(prop, fam_nontrivial):
 
 
 def _go(prop, tier, seed, only=None, tag="run"):
-    if prop not in ("C17", "C18", "C11"):
+    if prop not in ("C17", "C18", "C11", "C03", "C04"):
         return dict(problems=[dict(name="layout-bad-prop", text=f"eng_layout does not handle {prop}", failing_input=False, header=[], lines=[])])
     timings = {}
     okh, outh, hexe, timings["build_harness"] = build_harness()
@@ -530,7 +537,16 @@ def _go(prop, tier, seed, only=None, tag="run"):
                           failing_input=False, header=[], lines=[]))
         ans = ["config ok"] + ask_model_each(mexe, config, cases)
     t = time.time()
-    res = analyse(prop, tier, seed, config, cases, crashes, global_mon, ans[1:], timings)
+    ignore_diffs = False
+    if prop == "C03":
+        # C03 judges one clause on these cases — "no value is destructed and no allocation is
+        # released while a callback is running" (monitor lines `C03: …`, and a harness killed in
+        # a case); what else the builders do is C18's / C11's business
+        ignore_diffs = True
+        for c in cases:
+            if c.monitors:
+                c.monitors = [x for x in c.monitors if x.startswith("C03:") or "process died" in x] or None
+    res = analyse(prop, tier, seed, config, cases, crashes, global_mon, ans[1:], timings, ignore_diffs=ignore_diffs)
     timings["compare"] = round(time.time() - t, 1)
     res["problems"] = res["problems"] + extra
     if prop == "C17" and not only:
